@@ -92,22 +92,17 @@ Qed.
 (** *** Partition *)
 Lemma chunk_loop_concat C seq fs : forall cur styp nr this total dt,
   inv C fs cur nr this total dt ->
-  Forall (fun s => 0 < s_dur s) fs ->
-  (cur <> [] -> 0 < this) ->
   samples_of (chunk_loop C seq fs cur styp nr this total dt) = cur ++ stamped dt fs.
 Proof.
-  induction fs as [|s rest IH]; intros cur styp nr this total dt I Hpos Hcur.
-  - cbn [chunk_loop stamped]. destruct (this >? 0) eqn:E.
-    + cbn. now rewrite !app_nil_r.
-    + destruct cur as [|x cur]; [reflexivity|]. assert (0 < this) by (apply Hcur; discriminate). lia.
-  - rewrite (chunk_loop_step _ _ _ _ _ _ _ _ _ _ I). inversion Hpos; subst.
+  induction fs as [|s rest IH]; intros cur styp nr this total dt I.
+  - cbn [chunk_loop stamped]. destruct cur as [|x cur']; [reflexivity|]. cbn. now rewrite !app_nil_r.
+  - rewrite (chunk_loop_step _ _ _ _ _ _ _ _ _ _ I).
     destruct (total + s_dur s >=? C * nr) eqn:E.
     + unfold samples_of. cbn [flat_map c_samples]. fold (samples_of (chunk_loop C seq rest [] false (nr + 1) 0 (total + s_dur s) (dt + s_dur s))).
-      rewrite IH; [|apply (inv_close _ _ _ _ _ _ _ _ I); lia|assumption|congruence].
+      rewrite IH; [|apply (inv_close _ _ _ _ _ _ _ _ I); lia].
       cbn [stamped app]. rewrite <- app_assoc. reflexivity.
-    + rewrite IH; [|apply (inv_open _ _ _ _ _ _ _ _ I); lia|assumption|].
-      * cbn [stamped]. rewrite <- app_assoc. reflexivity.
-      * intros _. destruct I. pose proof (sum_durs_nonneg cur i_curd0). lia.
+    + rewrite IH; [|apply (inv_open _ _ _ _ _ _ _ _ I); lia].
+      cbn [stamped]. rewrite <- app_assoc. reflexivity.
 Qed.
 
 (** styp only on the first chunk; sequence number; no empty chunk *)
@@ -117,8 +112,8 @@ Lemma chunk_loop_shape C seq fs : forall cur styp nr this total dt,
   styp_first styp cs /\ Forall (fun c => c_seq c = seq /\ c_samples c <> []) cs.
 Proof.
   induction fs as [|s rest IH]; intros cur styp nr this total dt I.
-  - cbn [chunk_loop]. destruct (this >? 0) eqn:E; cbn; [|auto].
-    split; [auto|]. constructor; [|constructor]. cbn. split; [reflexivity|]. apply (i_cur _ _ _ _ _ _ _ I). lia.
+  - cbn [chunk_loop]. destruct cur as [|x cur']; cbn; [auto|].
+    split; [auto|]. constructor; [|constructor]. cbn. split; [reflexivity|discriminate].
   - cbv zeta. rewrite (chunk_loop_step _ _ _ _ _ _ _ _ _ _ I).
     destruct (total + s_dur s >=? C * nr) eqn:E.
     + destruct (IH [] false (nr + 1) 0 (total + s_dur s) (dt + s_dur s)) as [H1 H2];
@@ -141,9 +136,11 @@ Lemma chunk_loop_durs C M seq fs : 0 < C < two63 -> 0 <= M -> forall cur styp nr
 Proof.
   intros HC HM0.
   induction fs as [|s rest IH]; intros cur styp nr this total dt I HM HMc.
-  - cbn [chunk_loop]. destruct (this >? 0) eqn:E; [|constructor].
+  - cbn [chunk_loop]. destruct cur as [|x cur'] eqn:Ec; [constructor|]. rewrite <- Ec in *.
     constructor; [|constructor]. unfold chunk_span; cbn [c_samples c_dur].
-    destruct I. assert (total < C * nr) by (apply i_open0; lia).
+    destruct I. pose proof (sum_durs_nonneg cur i_curd0) as Hn.
+    assert (this < C).
+    { destruct (Z_lt_le_dec 0 this) as [Hp|Hp]; [specialize (i_open0 Hp); lia|lia]. }
     rewrite u64_small by (unfold two64, two63 in *; lia).
     rewrite <- i_this0. split; [lia|]. split; [lia|]. right. lia.
   - rewrite (chunk_loop_step _ _ _ _ _ _ _ _ _ _ I). inversion HM; subst.
@@ -168,7 +165,7 @@ Lemma chunk_loop_ends C M t0 seq fs : 0 < C -> 0 <= M -> forall cur styp nr this
 Proof.
   intros HC HM0.
   induction fs as [|s rest IH]; intros cur styp nr this total dt I Hopen HM.
-  - cbn [chunk_loop]. destruct (this >? 0) eqn:E; [|exact Logic.I].
+  - cbn [chunk_loop]. destruct cur as [|x cur'] eqn:Ec; [exact Logic.I|]. rewrite <- Ec in *.
     cbn [ends_bounded]. unfold chunk_span; cbn [c_samples]. destruct I. rewrite <- i_this0.
     split; [lia|]. split; [congruence|exact Logic.I].
   - rewrite (chunk_loop_step _ _ _ _ _ _ _ _ _ _ I). inversion HM; subst.
@@ -218,28 +215,25 @@ Lemma chunkDur_zero segDurMS atoMS ts :
   Z.abs ((segDurMS - atoMS) * ts) < 1000 -> chunkDurOf segDurMS atoMS ts = 0.
 Proof. intros H. unfold chunkDurOf. apply Z.quot_small_iff; lia. Qed.
 
-Lemma chunkSegment_partition fs st newTime newNr newDur C cs :
-  0 < C -> wf_input fs newTime -> Forall (fun s => 0 < s_dur s) fs ->
+Lemma chunkSegment_partition_pos fs st newTime newNr newDur C cs :
+  0 < C -> wf_input fs newTime ->
   chunkSegment fs st newTime newNr newDur C = Ok cs ->
   samples_of cs = stamped newTime fs /\ contiguous newTime cs /\
   styp_first st cs /\ Forall (fun c => c_seq c = newNr /\ c_samples c <> []) cs.
 Proof.
-  intros HC (Hd & H32 & Ht & H64) Hpos H. apply chunkSegment_ok in H. subst cs.
+  intros HC (Hd & H32 & Ht & H64) H. apply chunkSegment_ok in H. subst cs.
   pose proof (inv_init C fs newTime HC Hd H32 Ht H64) as I.
   assert (E : samples_of (chunk_loop C newNr fs [] st 1 0 0 newTime) = stamped newTime fs).
-  { rewrite (chunk_loop_concat _ _ _ _ _ _ _ _ _ I Hpos); [reflexivity|congruence]. }
+  { rewrite (chunk_loop_concat _ _ _ _ _ _ _ _ _ I). reflexivity. }
   split; [exact E|]. split; [eapply concat_contiguous; exact E|].
   apply (chunk_loop_shape _ _ _ _ _ _ _ _ _ I).
 Qed.
 
-(** zero-duration samples at the end of a segment are dropped *)
-Lemma zero_dur_tail_lost :
-  exists fs cs, wf_input fs 0 /\ chunkSegment fs true 0 7 2 2 = Ok cs /\ samples_of cs <> stamped 0 fs.
-Proof.
-  exists [ {| s_dur := 2; s_tag := 1; s_dt := 0 |}; {| s_dur := 0; s_tag := 2; s_dt := 0 |} ].
-  eexists. split; [|split; [vm_compute; reflexivity|vm_compute; discriminate]].
-  unfold wf_input. repeat split; try (vm_compute; congruence). repeat constructor; cbn; lia.
-Qed.
+(** the former defect (trailing zero-duration samples dropped, repaired by 14871fa) is gone *)
+Lemma zero_dur_tail_kept :
+  let fs := [ {| s_dur := 2; s_tag := 1; s_dt := 0 |}; {| s_dur := 0; s_tag := 2; s_dt := 0 |} ] in
+  exists cs, chunkSegment fs true 0 7 2 2 = Ok cs /\ samples_of cs = stamped 0 fs /\ length cs = 2%nat.
+Proof. cbv zeta. eexists. split; [vm_compute; reflexivity|]. split; vm_compute; reflexivity. Qed.
 
 Lemma chunkSegment_span fs st newTime newNr newDur C cs :
   0 < C < two63 -> wf_input fs newTime ->
@@ -334,7 +328,7 @@ Proof.
     assert (G : forall fs cur styp nr this total dt, Forall (fun s => 0 <= s_dur s) fs -> Forall (fun s => 0 <= s_dur s) cur ->
               Forall (fun c => Forall (fun s => 0 <= s_dur s) (c_samples c)) (chunk_loop C newNr fs cur styp nr this total dt)).
     { clear. induction fs as [|s r IH]; intros cur styp nr this total dt Hf Hc; cbn [chunk_loop].
-      - destruct (this >? 0); repeat constructor; assumption.
+      - destruct cur as [|x cur']; [constructor|constructor; [exact Hc|constructor]].
       - inversion Hf; subst.
         assert (Forall (fun s => 0 <= s_dur s) (cur ++ [set_dt s dt])) by (apply Forall_app; split; [assumption|repeat constructor; cbn; assumption]).
         destruct (total + s_dur s >=? C * nr); [constructor; [assumption|]|]; apply IH; auto. }
@@ -346,6 +340,20 @@ Proof.
     revert st newTime. induction fs as [|s r IH]; intros st newTime; cbn [per_sample]; [constructor|].
     apply Forall_cons_iff in Hd. destruct Hd as [Hs Hd]. constructor; [|apply IH; assumption].
     unfold chunk_span; cbn. lia.
+Qed.
+
+(** Partition for every chunk duration and all sample durations >= 0. *)
+Lemma chunkSegment_partition fs st newTime newNr newDur C cs :
+  wf_input fs newTime ->
+  chunkSegment fs st newTime newNr newDur C = Ok cs ->
+  samples_of cs = stamped newTime fs /\ contiguous newTime cs /\
+  styp_first st cs /\ Forall (fun c => c_seq c = newNr /\ c_samples c <> []) cs.
+Proof.
+  intros Hwf H. destruct (Z_lt_le_dec 0 C) as [Hp|Hn]; [now apply (chunkSegment_partition_pos fs st newTime newNr newDur C)|].
+  destruct (chunkSegment_nonpositive _ _ _ _ _ _ _ Hn Hwf H) as (_ & E & _ & F & S).
+  split; [exact E|]. split; [eapply concat_contiguous; exact E|]. split; [exact S|].
+  eapply Forall_impl; [|exact F]. cbn beta. intros c (A & B & _). split; [exact A|].
+  destruct (c_samples c); [discriminate|discriminate].
 Qed.
 
 (** *** Pacing *)
@@ -523,16 +531,14 @@ Proof.
 Qed.
 
 Lemma same_media newTime f0 frags st newNr newDur C cs :
-  0 < C ->
   frags_contiguous (f_tfdt f0) (f0 :: frags) ->
   wf_input (frag_samples (f0 :: frags)) newTime ->
-  Forall (fun s => 0 < s_dur s) (frag_samples (f0 :: frags)) ->
   chunkSegment (frag_samples (f0 :: frags)) st newTime newNr newDur C = Ok cs ->
   parse_body cs = whole_parse newTime (f0 :: frags) /\
   Forall (fun c => c_seq c = newNr) cs /\ styp_first st cs.
 Proof.
-  intros HC Hc Hwf Hpos H.
-  destruct (chunkSegment_partition _ _ _ _ _ _ _ HC Hwf Hpos H) as (P1 & P2 & P3 & P4).
+  intros Hc Hwf H.
+  destruct (chunkSegment_partition _ _ _ _ _ _ _ Hwf H) as (P1 & P2 & P3 & P4).
   split; [|split; [|exact P3]].
   - rewrite (parse_body_samples cs newTime P2).
     + rewrite P1. symmetry. apply whole_parse_stamped; assumption.
@@ -545,14 +551,12 @@ Qed.
 Lemma same_media_gap :
   exists newTime f0 frags cs,
     wf_input (frag_samples (f0 :: frags)) newTime /\
-    Forall (fun s => 0 < s_dur s) (frag_samples (f0 :: frags)) /\
     chunkSegment (frag_samples (f0 :: frags)) true newTime 1 20 10 = Ok cs /\
     parse_body cs <> whole_parse newTime (f0 :: frags).
 Proof.
   exists 1000, {| f_tfdt := 0; f_samples := [ {| s_dur := 10; s_tag := 1; s_dt := 0 |} ] |},
          [ {| f_tfdt := 15; f_samples := [ {| s_dur := 10; s_tag := 2; s_dt := 15 |} ] |} ].
-  eexists. split; [|split; [|split; [vm_compute; reflexivity|vm_compute; discriminate]]].
-  - unfold wf_input. repeat split; try (vm_compute; congruence). repeat constructor; cbn; lia.
-  - repeat constructor; cbn; lia.
+  eexists. split; [|split; [vm_compute; reflexivity|vm_compute; discriminate]].
+  unfold wf_input. repeat split; try (vm_compute; congruence). repeat constructor; cbn; lia.
 Qed.
 
